@@ -5863,7 +5863,8 @@ let rr_get_ttl r =
 let rr_get_class r =
   if N.eqb r.r_type tYPE_OPT then None else Some r.r_class
 
-type est = { e_buf : bytes; e_idx : (name * (n * n)) list }
+type est = { e_buf : bytes; e_idx : (name * (n * n)) list;
+             e_names : (n * name) list }
 
 type 'a eres =
 | EOk of 'a * est
@@ -5895,12 +5896,12 @@ let efail e _ =
 (** val e_init : est **)
 
 let e_init =
-  { e_buf = []; e_idx = [] }
+  { e_buf = []; e_idx = []; e_names = [] }
 
 (** val put : bytes -> unit eM **)
 
 let put b s =
-  EOk ((), { e_buf = (app s.e_buf b); e_idx = s.e_idx })
+  EOk ((), { e_buf = (app s.e_buf b); e_idx = s.e_idx; e_names = s.e_names })
 
 (** val eu8 : n -> unit eM **)
 
@@ -5943,7 +5944,8 @@ let patch i b buf =
 let set_u16 n0 index s =
   let len = lenN s.e_buf in
   if N.ltb (N.sub (N.add index (Npos (XO XH))) (Npos XH)) len
-  then EOk ((), { e_buf = (patch index (u16b n0) s.e_buf); e_idx = s.e_idx })
+  then EOk ((), { e_buf = (patch index (u16b n0) s.e_buf); e_idx = s.e_idx;
+         e_names = s.e_names })
   else EErr (XNotEnoughBytes, (len :: (index :: [])))
 
 (** val set_u8 : n -> n -> unit eM **)
@@ -5951,7 +5953,8 @@ let set_u16 n0 index s =
 let set_u8 n0 index s =
   let len = lenN s.e_buf in
   if N.ltb (N.sub (N.add index (Npos XH)) (Npos XH)) len
-  then EOk ((), { e_buf = (patch index (u8b n0) s.e_buf); e_idx = s.e_idx })
+  then EOk ((), { e_buf = (patch index (u8b n0) s.e_buf); e_idx = s.e_idx;
+         e_names = s.e_names })
   else EErr (XNotEnoughBytes, (len :: (index :: [])))
 
 (** val estring : bytes -> unit eM **)
@@ -6010,7 +6013,8 @@ let merge_index local recursion s =
   if cmp_apply oP_merge_rec recursion dOMAIN_NAME_MAX_RECURSION
   then EErr (XMaxRecursion, (recursion :: []))
   else EOk ((), { e_buf = s.e_buf; e_idx =
-         (app (map (fun p -> ((fst p), ((snd p), recursion))) local) s.e_idx) })
+         (app (map (fun p -> ((fst p), ((snd p), recursion))) local) s.e_idx);
+         e_names = s.e_names })
 
 (** val enc_name_loop : name -> (name * n) list -> unit eM **)
 
@@ -6028,10 +6032,16 @@ let rec enc_name_loop labels local =
              then (labels, index) :: local
              else local)))
 
+(** val log_name : name -> unit eM **)
+
+let log_name n0 s =
+  EOk ((), { e_buf = s.e_buf; e_idx = s.e_idx; e_names = (((lenN s.e_buf),
+    n0) :: s.e_names) })
+
 (** val enc_domain_name : name -> unit eM **)
 
 let enc_domain_name n0 =
-  enc_name_loop n0 []
+  ebind (log_name n0) (fun _ -> enc_name_loop n0 [])
 
 (** val addr_prefix_loop : cmp -> n -> bytes -> n -> bytes res **)
 
